@@ -33,6 +33,14 @@ static void env_step(void)
     }
     vr_env_noblock = 0;
 }
+/* the joiner polls (thread_join_busywait) for TERMINATED.  If at that moment REQ_JOIN is set, no joiner link is published and
+ * the target has not passed its wake-up step, the target will wait for the link forever (the only joiner is busy polling, i.e.
+ * past the point where it publishes the link) and the join never returns: a liveness failure decided as a safety property. */
+void vr_pause(void)
+{
+    __CPROVER_assert(!(t_pc == 0 && (ULT1.thread.request.val & ABTI_THREAD_REQ_JOIN) && ULT1.ctx.p_link.val.val == NULL),
+                     "join hand-shake: the joiner claimed the join (REQ_JOIN) but polls for termination without ever publishing its link: the target waits for the link forever");
+}
 static void vr_after_switch(int k)
 {
     vr_depth++; if (nondet_bool()) env_step(); vr_depth--; as_agent(k);
@@ -46,6 +54,11 @@ int main(void)
 {
     world_init();
     ULT1.thread.state.val = ABT_THREAD_STATE_RUNNING;     /* the target is running on ES1 */
+    /* or: the target sits in a pool (it last ran on a solver-chosen stream, possibly the joiner's) and is being CANCELLED: the
+     * scheduler of ES1 that popped it runs the same two steps (ABTI_thread_handle_request_cancel) */
+    if (nondet_bool()) { ULT1.thread.state.val = ABT_THREAD_STATE_READY; ULT1.thread.p_last_xstream = nondet_bool() ? &ES0 : (nondet_bool() ? &ES2 : NULL); }
+    int other_req = nondet_bool();                        /* another request (migration) may already be pending on the target */
+    if (other_req) ULT1.thread.request.val = ABTI_THREAD_REQ_MIGRATE;
     int pre = nondet_int(); VR_ASSUME(pre >= 0 && pre <= 2);
     as_agent(1);
     if (pre >= 1) { target_done_writes = 1; ABTI_ythread_resume_joiner(&ES1, &ULT1); t_pc = 1; }   /* join issued DURING / AFTER termination */
@@ -71,5 +84,6 @@ int main(void)
     if (pre == 0 && vr_futex_wakes > 0) VR_WITNESS("external joiner slept in the futex and was woken");
 #endif
     if (pre == 2) VR_WITNESS("join after termination returns at once");
+    if (other_req && pre == 0) VR_WITNESS("join completed although another request was pending on the target when it was issued");
     return 0;
 }
